@@ -328,7 +328,7 @@ impl<'a, 'p> Gen<'a, 'p> {
             Combine::Merge => St {
                 repl: ls.repl,
                 det: false,
-                bound: ls.bound + rs.bound,
+                bound: ls.bound.saturating_add(rs.bound),
                 ..ls
             },
             Combine::Zip => St {
@@ -344,7 +344,7 @@ impl<'a, 'p> Gen<'a, 'p> {
                     Repl::Unlimited
                 },
                 det: false,
-                bound: ls.bound.saturating_mul(rs.bound.max(1)).max(ls.bound + rs.bound).min(CAP * 4),
+                bound: ls.bound.saturating_mul(rs.bound.max(1)).max(ls.bound.saturating_add(rs.bound)).min(CAP * 4),
                 ..ls
             },
         }
@@ -423,7 +423,7 @@ impl<'a, 'p> Gen<'a, 'p> {
                 if st.loop_depth < 2 { p.w_replay } else { 0 },
                 if st.loop_depth == 0 { p.w_iterate } else { 0 },
                 if st.in_iterate && std::env::var("VERIF_NO_F7_EXCLUSION").is_err() { 0 } else { p.w_batch },
-                if st.bound * 16 <= CAP { p.w_broadcast } else { 0 },
+                if st.bound.saturating_mul(16) <= CAP { p.w_broadcast } else { 0 },
             ];
             match self.ch.weighted(&w) {
                 0 => {
@@ -438,7 +438,7 @@ impl<'a, 'p> Gen<'a, 'p> {
                             if st.bound.saturating_mul(f.max_fanout().max(1)) > CAP || (st.in_iterate && f.max_fanout() > 1) {
                                 Stage::Map(MapFn::Affine(1, 1))
                             } else {
-                                st.bound *= f.max_fanout().max(1);
+                                st.bound = st.bound.saturating_mul(f.max_fanout().max(1));
                                 Stage::FlatMap(f)
                             }
                         }
@@ -590,12 +590,12 @@ impl<'a, 'p> Gen<'a, 'p> {
                     let n = 1 + self.ch.below(4);
                     let preds: Vec<u8> = (0..n).map(|_| self.ch.below(6) as u8).collect();
                     let mut branches = Vec::new();
-                    let mut bound = 0;
+                    let mut bound: usize = 0;
                     let saved = self.budget;
                     for _ in 0..n {
                         self.budget = self.ch.below(2).min(saved);
                         let (b, bs) = self.stages(st);
-                        bound += bs.bound;
+                        bound = bound.saturating_add(bs.bound);
                         branches.push(b);
                     }
                     self.budget = saved.saturating_sub(branches.iter().map(|b| b.len()).sum());
